@@ -155,4 +155,26 @@ theorem tie_set_state_list (l : List RawG) : Gen.GoalRegion_set_state_list l = s
   unfold Gen.GoalRegion_set_state_list setStateList
   exact tie_set_state_list_loop l l
 
+/-! ### structural ties: the parts moved by the three `translate_rotate` methods (finite tables, checked completely) -/
+
+theorem tie_goal_region_moves :
+    Gen.GoalRegion_translate_rotate_moves = goalRegionMoves ∧ Gen.GoalRegion_translate_rotate_stmts = goalRegionMoveStmts := by
+  decide
+theorem tie_planning_problem_moves :
+    Gen.PlanningProblem_translate_rotate_moves = planningProblemMoves ∧
+    Gen.PlanningProblem_translate_rotate_stmts = planningProblemMoveStmts := by decide
+theorem tie_planning_problem_set_moves :
+    Gen.PlanningProblemSet_translate_rotate_moves = planningProblemSetMoves ∧
+    Gen.PlanningProblemSet_translate_rotate_stmts = planningProblemSetMoveStmts := by decide
+
+/-! ### what the ties give: the C08 theorems hold of the translated source -/
+
+/-- `GoalRegion.is_reached` AS TRANSLATED FROM THE CURRENT SOURCE returns `ok b` with `b` true exactly when some goal state is
+    satisfied in all the attributes it constrains (C08_isReached_iff through `tie_is_reached`). -/
+theorem T08_source_isReached_iff (F : Fns) (τ ε : Rat) (hτ : 0 < τ) (hε0 : 0 ≤ ε) (hε : ε < τ) (s : St) (goals : List GState)
+    (h : ∀ g ∈ goals, WfG g ∧ fieldsOk g s = true) :
+    ∃ b, Gen.GoalRegion_is_reached F τ ε goals s = .ok b ∧ (b = true ↔ ∃ g ∈ goals, Sat F τ ε g s) := by
+  rw [tie_is_reached]
+  exact C08_isReached_iff F τ ε hτ hε0 hε s goals h
+
 end CR.Goal
